@@ -25,6 +25,9 @@ fn owned(check: &str, class: &str) -> bool {
 		"C08" => reads || matches!(class, "wrong_error" | "missing_error" | "unexpected_error" | "commit_error"),
 		"C09" => matches!(class, "cursor_mismatch" | "read_error" | "panic" | "scan_mismatch"),
 		"C17" => matches!(class, "no_progress" | "hang" | "panic" | "close_failed" | "deadlock"),
+		"C10" => reads || matches!(class, "get_at_mismatch" | "history_mismatch" | "history_order" | "background_error" | "reopen_failed"),
+		"C11" => reads || matches!(class, "background_error" | "reopen_failed" | "close_failed"),
+		"C14" => reads || matches!(class, "checkpoint_failed" | "restore_failed" | "background_error" | "reopen_failed" | "commit_error" | "standalone_mismatch"),
 		_ => true,
 	}
 }
@@ -635,6 +638,307 @@ fn gen_concurrent(case_seed: u64, tier: Tier, id: &str) -> Plan {
 		p.windows.push(Window { label: "apply.post_rotate".into(), nth: rng.range(1, 3) as u32, steps: vec![Step::Probe] });
 	}
 	p
+}
+
+// ---------------------------------------------------------------- C10
+
+fn gen_c10(case_seed: u64, _case: u64, tier: Tier) -> Plan {
+	let mut rng = Rng::new(case_seed);
+	let mut opts = random_opts(&mut rng);
+	opts.versioning = true;
+	opts.versioned_index = rng.chance(1, 2);
+	opts.retention_ns = 0;
+	opts.vlog_max_file = *rng.pick(&[512u64, 4096, 1 << 20]);
+	opts.memtable = *rng.pick(&[2048usize, 4096, 8192]);
+	let nkeys = rng.range(2, 6) as u16;
+	let keys = key_universe(&mut rng, nkeys as usize + 1, false);
+	let nkeys = (keys.len() - 1) as u16; // last key only serves as an exclusive upper bound
+	let mut tags = TagGen(0);
+	let budget = txn_budget(opts.memtable);
+	let n = match tier {
+		Tier::Quick => rng.range(4, 24),
+		Tier::Thorough => rng.range(4, 48),
+	};
+	let mut logical: Vec<Step> = Vec::new();
+	let mut used_ts: Vec<u64> = Vec::new();
+	let mut commit_no: u64 = 0;
+	let queries = |rng: &mut Rng, out: &mut Vec<Step>, used: &Vec<u64>| {
+		out.push(Step::Begin { a: 1, mode: ModeS::ReadOnly });
+		for _ in 0..rng.range(1, 3) {
+			let lo = rng.below(nkeys as u64) as u16;
+			let hi = rng.range(lo as u64, nkeys as u64) as u16;
+			let ts_range = if rng.chance(1, 3) && !used.is_empty() {
+				let a = *rng.pick(used);
+				let b = *rng.pick(used);
+				Some((a.min(b), a.max(b)))
+			} else {
+				None
+			};
+			let limit = if rng.chance(1, 5) { Some(rng.range(1, 5) as u32) } else { None };
+			out.push(Step::History { a: 1, lo, hi, tomb: rng.chance(1, 2), ts_range, limit, rev: rng.chance(1, 3) });
+		}
+		out.push(Step::History { a: 1, lo: 0, hi: nkeys, tomb: true, ts_range: None, limit: None, rev: false });
+		for _ in 0..rng.range(1, 4) {
+			let k = rng.below(nkeys as u64) as u16;
+			let t = if used.is_empty() { 5 } else { (*rng.pick(used) as i64 + rng.range(0, 2) as i64 - 1).max(0) as u64 };
+			out.push(Step::GetAt { a: 1, k, ts: t });
+		}
+		out.push(Step::Scan { a: 1, lo: None, hi: None, rev: false });
+		out.push(Step::DropTxn { a: 1 });
+	};
+	for i in 0..n {
+		logical.push(Step::Begin { a: 0, mode: ModeS::ReadWrite });
+		commit_no += 1;
+		let base = 1000 * (commit_no - 1);
+		let nw = rng.range(1, 3);
+		let mut left = budget;
+		let mut touched: Vec<u16> = Vec::new();
+		for j in 0..nw {
+			if left < 70 {
+				break;
+			}
+			let k = rng.below(nkeys as u64) as u16;
+			if touched.contains(&k) {
+				continue; // one write per key per transaction: no timestamp ties
+			}
+			touched.push(k);
+			let ts = base + 1 + j;
+			match rng.below(12) {
+				0 => logical.push(Step::Delete { a: 0, k, ts: None }),
+				1 | 2 => {
+					used_ts.push(ts);
+					logical.push(Step::SoftDelete { a: 0, k, ts: Some(ts) });
+				}
+				3 => {
+					let len = value_len(&mut rng).min(left - 60).max(8);
+					used_ts.push(1000 * commit_no);
+					logical.push(Step::Replace { a: 0, k, v: tags.next(len) });
+					left = left.saturating_sub(60 + len);
+				}
+				_ => {
+					let len = value_len(&mut rng).min(left - 60).max(8);
+					used_ts.push(ts);
+					logical.push(Step::Set { a: 0, k, v: tags.next(len), ts: Some(ts) });
+					left = left.saturating_sub(60 + len);
+				}
+			}
+		}
+		logical.push(Step::Commit { a: 0, sync: false });
+		if i % 3 == 2 {
+			queries(&mut rng, &mut logical, &used_ts);
+		}
+	}
+	queries(&mut rng, &mut logical, &used_ts);
+	let a = with_physical(&mut rng, &logical, 40, true);
+	// re-query after the final flush / compaction / reopen
+	let mut a2 = a.clone();
+	queries(&mut rng, &mut a2, &used_ts);
+	let mut pa = base_plan("C10", case_seed, opts.clone(), keys.clone(), a2);
+	pa.gate_tasks = true;
+	// twin: other back-end, other physical plan
+	let mut opts_b = opts;
+	opts_b.versioned_index = !opts_b.versioned_index;
+	let b = with_physical(&mut rng, &logical, 20, true);
+	let mut b2 = b;
+	queries(&mut rng, &mut b2, &used_ts);
+	let mut pb = base_plan("C10", case_seed ^ 0xb, opts_b, keys, b2);
+	pb.gate_tasks = true;
+	pa.twin = Some(Box::new(pb));
+	pa
+}
+
+pub fn c10() -> CheckDef {
+	CheckDef {
+		id: "C10",
+		level: "exploration",
+		rule: "a case = one logical history of timestamped sets / soft deletes / hard deletes / replaces (non-decreasing timestamps per key, one write per key per transaction so that no two versions tie) executed under two physical plans (placements of rotate / flush / compaction / reopen) - one with the B+tree version index, one without - with history_with_options over option combinations (tombstones, ts range, limit; forward and backward), get_at at every used timestamp +-1 and plain scans, before and after flush/compaction/reopen. Oracle: model get_at / history (keys ascending, newest first, hard delete and replace erase everything older). non-trivial = >=2 commits and >=2 reads; distinct = op-log digests of both twins",
+		assumptions: &["retention 0 (unlimited) only; finite retention is not explored by this check", "with a limit only forward traversals are judged (which end a backward traversal keeps is not pinned down by the property)"],
+		components: COMPONENTS,
+		cases: |t| cases(t, 2000, 30000),
+		gen: gen_c10,
+		judge,
+		shrink_budget: 250,
+	}
+}
+
+// ---------------------------------------------------------------- C11
+
+fn gen_c11(case_seed: u64, case: u64, tier: Tier) -> Plan {
+	if case % 3 == 2 {
+		return super::crash::gen_c11_crash(case_seed, case, tier);
+	}
+	let mut rng = Rng::new(case_seed);
+	let mut opts = random_opts(&mut rng);
+	with_vlog(&mut rng, &mut opts);
+	opts.memtable = *rng.pick(&[8192usize, 16384]);
+	opts.vlog_max_file = *rng.pick(&[200u64, 512, 2048]);
+	opts.vlog_checksum_full = rng.chance(1, 2);
+	let thr = opts.vlog_threshold as u32;
+	let sizes: Vec<u32> = vec![0, 1, thr.saturating_sub(1).max(1), thr, thr + 1, (opts.block as u32 * 4).min(1500), 700];
+	let nkeys = rng.range(3, 10) as u16;
+	let keys = key_universe(&mut rng, nkeys as usize, false);
+	let nkeys = keys.len() as u16;
+	let mut tags = TagGen(0);
+	let n = match tier {
+		Tier::Quick => rng.range(6, 36),
+		Tier::Thorough => rng.range(6, 80),
+	};
+	let mut steps = Vec::new();
+	let n_readers = 2u8;
+	let mut open = [false; 4];
+	for i in 0..n {
+		steps.push(Step::Begin { a: 0, mode: ModeS::ReadWrite });
+		let mut left = 2400u32;
+		for _ in 0..rng.range(1, 3) {
+			let k = rng.below(nkeys as u64) as u16;
+			match rng.below(8) {
+				0 => steps.push(Step::Delete { a: 0, k, ts: None }),
+				1 => steps.push(Step::SoftDelete { a: 0, k, ts: None }),
+				_ => {
+					let len = (*rng.pick(&sizes)).min(left.saturating_sub(60));
+					steps.push(Step::Set { a: 0, k, v: tags.next(len), ts: None });
+					left = left.saturating_sub(60 + len);
+				}
+			}
+		}
+		steps.push(Step::Commit { a: 0, sync: false });
+		if rng.chance(1, 2) {
+			steps.push(physical_step(&mut rng, true));
+			// after every physical step every value must still be byte-identical
+			steps.push(Step::Probe);
+		}
+		// readers and open cursors held across flush / compaction / clean-up
+		let a = 1 + (i % n_readers as u64) as u8;
+		if !open[a as usize] && rng.chance(1, 2) {
+			steps.push(Step::Begin { a, mode: ModeS::ReadOnly });
+			steps.push(Step::OpenCursor { a, lo: None, hi: None });
+			steps.push(Step::CursorOp { a, op: CurOp::SeekFirst });
+			open[a as usize] = true;
+		} else if open[a as usize] {
+			match rng.below(4) {
+				0 => {
+					steps.push(Step::DropTxn { a });
+					open[a as usize] = false;
+				}
+				1 => steps.push(Step::Scan { a, lo: None, hi: None, rev: rng.chance(1, 2) }),
+				2 => steps.push(Step::CursorOp { a, op: CurOp::Next }),
+				_ => steps.push(Step::Get { a, k: rng.below(nkeys as u64) as u16 }),
+			}
+		}
+	}
+	steps.push(Step::FlushAll);
+	steps.push(Step::CompactAll);
+	steps.push(Step::Probe);
+	for a in 1..=n_readers {
+		if open[a as usize] {
+			steps.push(Step::Scan { a, lo: None, hi: None, rev: false });
+		}
+	}
+	steps.push(Step::Reopen);
+	steps.push(Step::Probe);
+	let mut p = base_plan("C11", case_seed, opts, keys, steps);
+	p.gate_tasks = true;
+	p
+}
+
+fn judge_c11(plan: &Plan, tier: Tier) -> Judged {
+	if plan.params.get("mode").copied().unwrap_or(0) == 1 {
+		super::crash::judge(plan, tier)
+	} else {
+		judge(plan, tier)
+	}
+}
+
+pub fn c11() -> CheckDef {
+	CheckDef {
+		id: "C11",
+		level: "fault_enumeration",
+		rule: "two kinds of cases. (a) sessions with the value log on: value sizes {0, 1, threshold-1, threshold, threshold+1, 4 blocks, 700 B}, vlog files of 200-2048 bytes so one flush rotates files, overwrite/delete patterns that obsolete whole files, readers and open cursors held across flush / compaction / vlog clean-up, reopen; every value read (gets, both scans, after every physical step) is compared byte for byte with the model. (b) every third case: the C02 crash engine with the value log on and 256-1024 byte vlog files: crash images at file-operation boundaries under both crash models must recover every acknowledged value intact. evaluations = sessions + crash images. non-trivial = >=2 commits and >=2 reads (a) / a rotation or flush (b); distinct = op-log digests",
+		assumptions: &["as C02 for the crash leg", "pointer reachability is judged through reads: a dangling pointer shows up as a read error or wrong bytes"],
+		components: COMPONENTS,
+		cases: |t| cases(t, 1500, 20000),
+		gen: gen_c11,
+		judge: judge_c11,
+		shrink_budget: 200,
+	}
+}
+
+// ---------------------------------------------------------------- C14
+
+fn gen_c14(case_seed: u64, _case: u64, tier: Tier) -> Plan {
+	let mut rng = Rng::new(case_seed);
+	let mut opts = random_opts(&mut rng);
+	match rng.below(4) {
+		0 => with_vlog(&mut rng, &mut opts),
+		1 => {
+			opts.versioning = true;
+			opts.versioned_index = rng.chance(1, 2);
+		}
+		_ => {}
+	}
+	opts.cache = *rng.pick(&[0u64, 1024, 16384]);
+	let nkeys = rng.range(3, 10) as u16;
+	let keys = key_universe(&mut rng, nkeys as usize, false);
+	let nkeys = keys.len() as u16;
+	let mut tags = TagGen(0);
+	let budget = txn_budget(opts.memtable);
+	let scale = match tier {
+		Tier::Quick => 1,
+		Tier::Thorough => 2,
+	};
+	let mut steps = Vec::new();
+	let phase = |rng: &mut Rng, steps: &mut Vec<Step>, tags: &mut TagGen, n: u64| {
+		for _ in 0..n {
+			write_txn(rng, 0, nkeys, tags, 3, 10, budget, steps);
+			if rng.chance(2, 5) {
+				steps.push(physical_step(rng, false));
+			}
+			if rng.chance(1, 4) {
+				steps.push(Step::Probe);
+			}
+		}
+	};
+	let n1 = rng.range(1, 10 * scale);
+	phase(&mut rng, &mut steps, &mut tags, n1);
+	steps.push(Step::Probe); // warms the caches with pre-checkpoint data
+	steps.push(Step::Checkpoint);
+	steps.push(Step::VerifyCheckpoint);
+	let n2 = rng.range(1, 12 * scale);
+	phase(&mut rng, &mut steps, &mut tags, n2);
+	steps.push(Step::Probe); // warms the caches with data of the timeline to be discarded
+	steps.push(Step::Restore);
+	steps.push(Step::Probe);
+	let n3 = rng.range(1, 10 * scale);
+	phase(&mut rng, &mut steps, &mut tags, n3);
+	steps.push(Step::Probe);
+	steps.push(Step::FlushAll);
+	steps.push(Step::CompactAll);
+	steps.push(Step::Probe);
+	steps.push(Step::Reopen);
+	steps.push(Step::Probe);
+	if rng.chance(1, 3) {
+		steps.push(Step::Restore);
+		steps.push(Step::Probe);
+		steps.push(Step::Reopen);
+		steps.push(Step::Probe);
+	}
+	let mut p = base_plan("C14", case_seed, opts, keys, steps);
+	p.gate_tasks = rng.chance(1, 2);
+	p
+}
+
+pub fn c14() -> CheckDef {
+	CheckDef {
+		id: "C14",
+		level: "exploration",
+		rule: "a case = writes (+flush/compaction) -> checkpoint at a quiescent point -> the checkpoint directory is copied and opened standalone -> more writes, flushes and compactions that create new tables / vlog files and reuse ids, with probes that warm the block and vlog caches -> restore -> probes -> more commits, flush, compaction, reopen -> probes (sometimes a second restore); vlog / versioning / version index on or off, caches 0-16 KiB. Oracle: after restore every read equals the model at the checkpoint, later commits layer on it, also after reopen; the standalone open equals the checkpoint state. non-trivial = >=2 commits and >=2 reads; distinct = op-log digest",
+		assumptions: &["checkpoints only at quiescent points (no commit in flight), as the property states"],
+		components: COMPONENTS,
+		cases: |t| cases(t, 1500, 20000),
+		gen: gen_c14,
+		judge,
+		shrink_budget: 200,
+	}
 }
 
 // ---------------------------------------------------------------- C17
